@@ -48,6 +48,10 @@ def mc_cfgs(ctx):
     out.append(("graphs", dict(base, MaxAvail="2" if q else "3", Gaps="{1,2}" if q else "{1}", InitKind='"seeded1"' if q else '"seeded2"'), False, 2 if q else 6))
     if not q:
         out.append(("graphs2", dict(base, MaxAvail="2", Gaps="{1,2}", InitKind='"seeded"'), False, 2))
+    if q:
+        # quick keeps two small runs; the split / 4-report / longer-history configurations are thorough-only
+        out.append(("hist2", dict(base, HS="{h1,h2}", XS="{}", MaxDeps="1", MaxBlocks="2", InitKind='"empty"', Gaps="{1,2,3,4}"), True, 1))
+        return out
     # every prerequisite / lookup / both division, <=2 reports
     out.append(("split", dict(base, HS="{h1,h2}", XS="{ha}", MaxDeps="2" if q else "3", Split="TRUE",
                               InitKind='"seeded1"'), False, 1 if q else 2))
@@ -218,11 +222,7 @@ def run(ctx):
             first = lo + ((off - lo) % stride)
             jobs.append((fam, first, hi, stride))
     if q:
-        add("g2", 9, 1)
-        add("g3", 149, 1)
-        add("g2s", 127, 1)
-        add("g4", 61, 1)
-        add("h2", 601, 1)
+        jobs.append(("mix", 1, 1, 1))        # one TLC run: seeded 1-in-N sample of every family (strides in AccQueue_Gen)
     else:
         add("g3", 1, 12)
         add("g2", 1, 1)
